@@ -119,10 +119,21 @@ def run_case(spec, ctx):
             body, xi, rinfo = rodlite.simple_rod(rng, name="rod")
             F0 = rng.normal(size=3) * loguniform(rng, 1e-2, 1e2)
             timedep = rng.random() < 0.5
-            force = (lambda t, xi: F0 * (1 + xi) * np.cos(t)) if timedep else F0
+            # load profile along the rod: constant vector (the documented shorthand), or a callable force(t, xi) that varies
+            # along the rod (linear + non-polynomial part, so that no quadrature rule of the rod integrates it exactly by luck)
+            profile = ["constant", "linear", "smooth"][int(rng.integers(3))] if not timedep else ["linear", "smooth"][int(rng.integers(2))]
+            a_, b_, c_ = float(rng.uniform(0.5, 2)), float(rng.uniform(0.3, 1)), float(rng.uniform(1, 6))
+            if profile == "constant":
+                force = F0
+            elif profile == "linear":
+                force = (lambda t, xi: F0 * (1 + a_ * xi) * np.cos(t)) if timedep else (lambda t, xi: F0 * (1 + a_ * xi))
+            else:
+                force = ((lambda t, xi: F0 * (1 + a_ * xi + b_ * np.sin(c_ * xi)) * np.cos(t)) if timedep
+                         else (lambda t, xi: F0 * (1 + a_ * xi + b_ * np.sin(c_ * xi))))
+            ctx.cls(f"lineload:profile:{profile}")
             elem = Force_line_distributed(force, body)
             system.add(body, elem)
-            det.update(rinfo); det["force_time_dependent"] = timedep
+            det.update(rinfo); det["force_time_dependent"] = timedep; det["load_profile"] = profile
             conservative = True
         else:  # gyroscopic terms of rigid bodies
             body, _, _, _ = gen.make_subsystem(rng, "rigid_body", "body")
